@@ -46,6 +46,10 @@ CLASS = {
     "decorated": "import functools\n\n\ndef deco(fn):\n    @functools.wraps(fn)\n    def wrapper(*a, **k):\n        return fn(*a, **k)\n\n    return wrapper\n\n\n@deco\ndef f(a: int) -> int:\n    return a\n\n\nclass K:\n    @functools.cached_property\n    def cp(self) -> int:\n        return 1\n\n    @deco\n    def m(self) -> int:\n        return 2\n",
 }
 CLASS.update({
+    "recursive-alias": "from typing import Union\n\nJson = Union[dict[str, \"Json\"], list[\"Json\"], str, int, float, bool, None]\n\n\ndef dump(data: Json) -> str:\n    ...\n\n\ndef load(text: str) -> Json:\n    ...\n",
+    "recursive-namedtuple": "from typing import NamedTuple\n\n\nclass Node(NamedTuple):\n    value: int\n    children: list[\"Node\"]\n\n\nclass Pair(NamedTuple):\n    x: int\n    y: str\n\n\ndef depth(node: Node) -> int:\n    ...\n\n\ndef mk(p: Pair) -> Pair:\n    ...\n",
+})
+CLASS.update({
     "subscript-assign": "class K:\n    registry = {}\n    registry[\"a\"] = 1\n\n    def __init__(self):\n        self.cache = {}\n        self.cache[\"k\"] = 2\n        self.items = [0]\n        self.items[0] += 1\n",
     "starred-assign": "class K:\n    first, *rest = [1, 2, 3]\n\n    def __init__(self):\n        self.a, *self.b = [1, 2, 3]\n\n\nhead, *tail = [1, 2]\n",
     "private-foreign-base": "import argparse\n\n\nclass K(argparse._ActionsContainer):\n    def own(self) -> int:\n        ...\n",
